@@ -67,8 +67,8 @@ def generate(rng, tier, run, seed=0):
     allowed = V.charset(case['charset'], case['entry']['icvn'])
     other = None
     for _ in range(40):
-        d = [rng.choice(['~', '\n', '!', '\x1d', '\x1c', '+', "'"]), rng.choice(['*', '|', '\t', '\x1f', ',', '^']),
-             rng.choice([':', ';', '?', '&', '>', '<', '\\', '@', '|', '!'])]
+        d = [rng.choice(['~', '\n', '!', '\x1d', '\x1c', '+', "'", '{', '}']), rng.choice(['*', '|', '\t', '\x1f', ',', '^', '{', '}']),
+             rng.choice([':', ';', '?', '&', '>', '<', '\\', '@', '|', '!', '{', '}', '%'])]
         if len(set(d)) == 3 and not (set(d) & data) and d[2] in allowed and d != ['~', '*', ':'] and not (set(d) & set('~*:') - set(d[:0])
                                                                                                   and False):
             other = d
@@ -92,7 +92,9 @@ def generate(rng, tier, run, seed=0):
         c['rand'] = frozen_rand
         c['reseed'] = 1
         c['map_path'] = None
-    case.update({'flat': flat, 'muts': muts, 'other': other, 'layout': layout, 'eols': eols, 'cfgs': cfgs})
+    # what the process validated before is a configuration knob too: optionally prime it with the other charset
+    prime = rng.choice([None, None, 'B' if case['charset'] == 'E' else 'E'])
+    case.update({'flat': flat, 'muts': muts, 'other': other, 'layout': layout, 'eols': eols, 'cfgs': cfgs, 'prime': prime})
     del case['doc']
     return case
 
@@ -147,6 +149,9 @@ def execute(case):
     d2 = case['other']
     t1 = encode(flat, d1, ['\n'] * len(flat))
     t2 = encode(flat, d2, case['eols'])
+    if case.get('prime'):
+        docsim.run(t1, dict(case['cfgs'][0], sinks=[]), case['prime'], None)
+        out.fault('primed-with-other-charset')
     r1 = docsim.run(t1, case['cfgs'][0], case['charset'], log)
     r2 = docsim.run(t2, case['cfgs'][1], case['charset'], log)
     log.ev('pair', r1.verdict, r1.exc_sig, r2.verdict, r2.exc_sig, len(r1.errors), len(r2.errors))
